@@ -5,5 +5,5 @@ THEOREMS = []
 TRUSTED = []
 ASSUMPTIONS = []
 LEVEL_TEXT = "Lean theorems: the reduction invariant (unimodular non-negative matrix steps preserve the gcd and the cofactor relation) implies correctness of any step sequence; single-limb gcd, binary loop, Jacobi base case equal to Mathlib's jacobiSym; mpz wrappers' normalisation and special cases. Differential run with quotient sequences chosen explicitly (Fibonacci-like, huge quotients)."
-LEVEL_NOTE = "mpn_hgcd/mpn_hgcd_reduce at n >= HGCD_REDUCE_THRESHOLD (the truncation analysis of mpn_hgcd_appr), the bound M->n < M->alloc and the divide-and-conquer range of mpn_gcdext (divisors of >= GCDEXT_DC_THRESHOLD limbs: hypothesis MpnGcdextContractDC of the mpz_gcdext/mpz_invert theorems) rest on the correspondence run only."
+LEVEL_NOTE = "mpn_hgcd/mpn_hgcd_reduce at n >= HGCD_REDUCE_THRESHOLD (truncation analysis of mpn_hgcd_appr), the bound M->n <= (n-p-1)/2 (hypothesis HgcdMn) and the link from the proved sized model of mpn_gcdext's divide-and-conquer loop to the hypothesis MpnGcdextContractDC of the mpz theorems rest on the correspondence run."
 PLACEHOLDER = True
